@@ -7,7 +7,7 @@ from harness import c03_ext
 
 PROP = 'C03'
 MODEL_MODULES = ['TenpyModel.Util.J', 'TenpyModel.C03.Calls', 'TenpyModel.C03.ExtNet']
-PROPS_MODULES = ['TenpyModel.C03.Props', 'TenpyModel.C03.PropsCalls']
+PROPS_MODULES = ['TenpyModel.C03.Props', 'TenpyModel.C03.PropsCalls', 'TenpyModel.C03.PropsExt']
 LEVEL = 'proof'
 BUDGET = {'quick': 170, 'thorough': 1500}
 RULE = ('histories: typed random walk (8-14 steps after set-up) over the public tensor operations — deep/shallow copy, '
@@ -313,7 +313,7 @@ def run(ctx):
         cases = load_corpus() + cases_for(ctx, 'main', 16000, 600)
     res.merge(evaluate(ctx, cases))
     # extension round: network level (MPS / MPO containers) against the Lean model ExtNet, own PRNG stream 'ext'
-    res.merge(c03_ext.run_ext(ctx, 320 if ctx.quick else 6000))
+    res.merge(c03_ext.run_ext(ctx, 320 if ctx.quick else 3200))
     ops = {k[3:]: v for k, v in res.hist.items() if k.startswith('op=')}
     res.extra['operations_exercised'] = len(ops)
     res.extra['inplace_steps'] = sum(v for k, v in ops.items() if k in INPLACE_OPS or k.startswith('setitem'))
